@@ -26,7 +26,7 @@ import (
 const fuzzMaxLen = 8192
 
 // knownPanicOrigins are the panic sites of the dependency findings listed in known_findings.json.
-var knownPanicOrigins = []string{"go-sev-guest/abi.(*CertTable).Unmarshal", "go-tdx-guest/abi.qeAuthDataToProto"}
+var knownPanicOrigins = []string{"go-sev-guest/abi.(*CertTable).Unmarshal", "go-tdx-guest/abi.qeAuthDataToProto", "go-tdx-guest/abi.signedDataToProto", "go-tdx-guest/abi.certificationDataToProto", "go-tdx-guest/abi.qeReportCertificationDataToProto", "go-tdx-guest/abi.pckCertificateChainToProto", "go-tdx-guest/abi.enclaveReportToProto"}
 
 func fuzzOne(t *testing.T, r req, blobs ...[]byte) {
 	total := 0
